@@ -82,13 +82,13 @@ def oracle(meta, kw, r):
             vals[tq] = val
             if tq in stored and kw.get("t_eval") is None:
                 yi = stored[tq]
-                if any(abs(a - b) > 1e-9 * scale for a, b in zip(val, yi)):
+                if any(abs(a - b) > 1e-9 * max(scale, abs(a), abs(b)) for a, b in zip(val, yi)):
                     out.append(("sample-mismatch", "sol(t_i) differs from the stored sample at t_i=%r: %r vs %r" % (tq, val, yi)))
     # sol_many answers every time as sol does, whatever the order of the request (seeded change C06-c reused the previous
     # request's segment); "to rounding", since two segments meeting at a joint may both answer
     for (tag, tq, val) in r.get("solm", []):
         ref = vals.get(tq)
-        if ref is not None and any(not (abs(a - b) <= 1e-9 * scale) for a, b in zip(val, ref)):
+        if ref is not None and any(not (abs(a - b) <= 1e-9 * max(scale, abs(a), abs(b))) and not (a != a and b != b) for a, b in zip(val, ref)):
             out.append(("sol-many-differs", "sol_many (%s order) gives %r at t=%r where sol gives %r" %
                         ("given" if tag == "f" else "reversed", val, tq, ref)))
             break
@@ -103,7 +103,8 @@ def oracle(meta, kw, r):
             out.append(("sample-mismatch", "max_i |sol(t_i) - y_i| = %.3g over all stored samples" % ss[1]))
     for tj in meta.get("joints", []):
         a, b = vals.get(gridgen.nextafter(tj, -1)), vals.get(gridgen.nextafter(tj, 1))
-        if a and b and any(abs(u - v) > 1e-9 * scale for u, v in zip(a, b)):
+        # relative to the values at hand: a run may blow up (RK4 with a far too long step) far beyond the stored samples
+        if a and b and any(abs(u - v) > 1e-9 * max(scale, abs(u), abs(v)) for u, v in zip(a, b)):
             out.append(("jump", "sol jumps across the step boundary %r: %r vs %r" % (tj, a, b)))
     sp = r.get("span")
     if sp is not None and st in ("Success", "UserInterrupt"):
